@@ -776,10 +776,10 @@ long d_string_replace_text_in_range(DString * d, size_t pos, size_t len, const c
 		if (len == -1) {
 			stop = d->currentStringLength;
 		} else {
-			stop = pos + len;
-
-			if (stop > d->currentStringLength) {
+			if (len > d->currentStringLength - pos) {
 				stop = d->currentStringLength;
+			} else {
+				stop = pos + len;
 			}
 		}
 
@@ -791,6 +791,12 @@ long d_string_replace_text_in_range(DString * d, size_t pos, size_t len, const c
 			d_string_insert(d, match - d->str, replace);
 
 			delta += change;
+
+			if (stop < pos + len_o) {
+				// Match extended past end of range -- nothing left to search
+				break;
+			}
+
 			stop += change;
 			match = strstr(d->str + pos + len_r, original);
 		}
